@@ -36,9 +36,13 @@ def opt_sets():
         {"format": "mb", "p_sub": 0.3}, {"format": "dsse", "p_sub": 0.3},
         {"params": True, "p_sub": 0.2, "vary_keys": False, "link_variants": ["honest"] * 4 + ["edited", "sig_keyid"]},
         {"boundary": True, "p_sub": 0.2},
+        # optional steps (threshold 0): the stored value must survive loading in both containers
+        {"thr_zero": True, "p_sub": 0.15, "vary_keys": False, "deviate": False},
         # placeholders in rules / commands / run fields whose substitution decides the verdict (C16's generator):
         # whether and when they are substituted must not depend on the layout's container
-        {"ph": True, "seq": False, "p_sub": 0.1, "vary_keys": False, "deviate": False},
+        # (layouts the loader rejects are validated at different moments in the two containers - on load vs. lazily - and are
+        # pinned to their format elsewhere; here only loadable layouts)
+        {"ph": True, "ph_invalid": False, "seq": False, "p_sub": 0.1, "vary_keys": False, "deviate": False},
         # per-link checks that must not depend on the container: step-name binding, file-name key id
         {"link_variants": ["honest"] * 3 + ["replayed_name", "other_keyid_name"], "p_sub": 0.05, "vary_keys": False},
     ]
